@@ -186,6 +186,15 @@ func CallDepthExceeded(limit int) *RuntimeError {
 	}
 }
 
+// EvalDepthExceeded - statements / expressions nested too deep at run time
+func EvalDepthExceeded(limit int) *RuntimeError {
+	return &RuntimeError{
+		Code:    ErrCallDepthExceeded,
+		Message: fmt.Sprintf("正在执行的语句与表达式的嵌套层数超过了上限（%d 层）", limit),
+		Extra:   limit,
+	}
+}
+
 // MostParamsError -
 func MostParamsError(maxParams int) *RuntimeError {
 	return &RuntimeError{
